@@ -19,4 +19,6 @@ for q, fi in sorted(repo.functions.items()):
         out[q] = names
 with open(os.path.join(HERE, "qv", "names.json"), "w") as fh:
     json.dump(out, fh, indent=0, sort_keys=True)
-print(len(out), "functions")
+with open(os.path.join(HERE, "qv", "functions.json"), "w") as fh:
+    json.dump(sorted(repo.functions), fh, indent=0)
+print(len(out), "functions with locals;", len(repo.functions), "functions in the inventory")
